@@ -197,7 +197,7 @@ func cmdCheck(args []string) int {
 				dir = resDir[r]
 			}
 		}
-		byDir[dir] = append(byDir[dir], nativeVec{ID: fmt.Sprintf("viol-%d", i), Harness: v.Harness, Tier: tierN, Events: v.Events})
+		byDir[dir] = append(byDir[dir], nativeVec{ID: fmt.Sprintf("viol-%d", i), Harness: v.Harness, Tier: tierN, Events: v.Events, Confirm: true})
 	}
 	for _, r := range results {
 		for i, w := range r.Witnesses {
@@ -357,6 +357,7 @@ func byHarnessDir(results []*HarnessResult, resDir map[*HarnessResult]string, h 
 // ---- native replay ----
 
 type nativeVec struct {
+	Confirm bool          `json:"confirm"`
 	ID      string        `json:"id"`
 	Harness string        `json:"harness"`
 	Tier    int           `json:"tier"`
@@ -429,33 +430,48 @@ func runNative(prop, dir string, ld *Loaded, harnesses []string, vecs []nativeVe
 	ovb, _ := json.Marshal(map[string]interface{}{"Replace": repl})
 	ovPath := filepath.Join(work, "overlay.json")
 	os.WriteFile(ovPath, ovb, 0o644)
-	vb, _ := json.Marshal(vecs)
 	vecPath := filepath.Join(work, "vectors.json")
-	os.WriteFile(vecPath, vb, 0o644)
 	outPath := filepath.Join(work, "out.jsonl")
-	timeout := 120 + 11*len(vecs)
-	cmd := exec.Command("timeout", strconv.Itoa(timeout), "go", "test", "-tags", "verif", "-vet=off", "-count=1", "-overlay", ovPath,
-		"-run", "^TestVerifReplay$", "-timeout", strconv.Itoa(timeout)+"s", "./"+dir)
-	cmd.Dir = repoDir
-	cmd.Env = append(os.Environ(), "GOFLAGS=-mod=mod", "GOPROXY=off", "GOSUMDB=off", "GOTOOLCHAIN=local", "VERIF_VECTORS="+vecPath, "VERIF_OUT="+outPath)
-	outb, err := cmd.CombinedOutput()
-	data, rerr := os.ReadFile(outPath)
-	if rerr != nil {
-		return nil, fmt.Errorf("go test failed: %v\n%s", err, tail(string(outb), 3000))
-	}
 	var res []nativeResult
-	for _, line := range strings.Split(string(data), "\n") {
-		if strings.TrimSpace(line) == "" {
-			continue
+	remaining := vecs
+	for attempt := 0; len(remaining) > 0 && attempt < len(vecs)+2; attempt++ {
+		vb, _ := json.Marshal(remaining)
+		os.WriteFile(vecPath, vb, 0o644)
+		os.Remove(outPath)
+		timeout := 120 + 11*len(remaining)
+		cmd := exec.Command("timeout", strconv.Itoa(timeout), "go", "test", "-tags", "verif", "-vet=off", "-count=1", "-overlay", ovPath,
+			"-run", "^TestVerifReplay$", "-timeout", strconv.Itoa(timeout)+"s", "./"+dir)
+		cmd.Dir = repoDir
+		cmd.Env = append(os.Environ(), "GOFLAGS=-mod=mod", "GOPROXY=off", "GOSUMDB=off", "GOTOOLCHAIN=local", "VERIF_VECTORS="+vecPath, "VERIF_OUT="+outPath)
+		outb, err := cmd.CombinedOutput()
+		data, rerr := os.ReadFile(outPath)
+		if rerr != nil {
+			return nil, fmt.Errorf("go test failed: %v\n%s", err, tail(string(outb), 3000))
 		}
-		var r nativeResult
-		if err := json.Unmarshal([]byte(line), &r); err != nil {
-			return nil, err
+		got := 0
+		for _, line := range strings.Split(string(data), "\n") {
+			if strings.TrimSpace(line) == "" {
+				continue
+			}
+			var r nativeResult
+			if err := json.Unmarshal([]byte(line), &r); err != nil {
+				return nil, err
+			}
+			res = append(res, r)
+			got++
 		}
-		res = append(res, r)
+		if got >= len(remaining) {
+			remaining = nil
+			break
+		}
+		// the test process died while running vector number `got` (e.g. a panic in a goroutine that
+		// nothing can recover): record that as its outcome and carry on with the rest
+		crashed := remaining[got]
+		res = append(res, nativeResult{ID: crashed.ID, Harness: crashed.Harness, Outcome: "panic:process crashed", Detail: tail(string(outb), 1500)})
+		remaining = remaining[got+1:]
 	}
 	if len(res) != len(vecs) {
-		return res, fmt.Errorf("native replay produced %d results for %d vectors: %s", len(res), len(vecs), tail(string(outb), 2000))
+		return res, fmt.Errorf("native replay produced %d results for %d vectors", len(res), len(vecs))
 	}
 	return res, nil
 }
@@ -504,7 +520,7 @@ func cmdReplay(args []string) int {
 	for _, fn := range ld.funcs[rec.Dir] {
 		hn = append(hn, fn.Name())
 	}
-	res, err := runNative(rec.Property, rec.Dir, ld, hn, []nativeVec{{ID: "replay", Harness: rec.Harness, Tier: rec.Tier, Events: rec.Events}})
+	res, err := runNative(rec.Property, rec.Dir, ld, hn, []nativeVec{{ID: "replay", Harness: rec.Harness, Tier: rec.Tier, Events: rec.Events, Confirm: true}})
 	if err != nil {
 		fmt.Fprintln(os.Stderr, err)
 		return 2
